@@ -35,7 +35,8 @@ def overlap(chk, tier):
     wl_run.run_histories(chk, n, nops, TAGS | {'crashkill', 'crashopen'}, 'overlap-histories', family=fam)
     # garbage collection after a failed flush / compaction install must not remove what the MANIFEST on disk may name
     import crashcheck
-    crashcheck.window_faults(chk, tier, ['flush', 'compact'], tags={'faultreopen', 'crashopen', 'crashkill'}, label='gc-after-failure')
+    # ... nor, after a failed MANIFEST roll-over at open, the MANIFEST that CURRENT already names
+    crashcheck.window_faults(chk, tier, ['flush', 'compact', 'reopen'], tags={'faultreopen', 'crashopen', 'crashkill'}, label='gc-after-failure')
 
 
 def run(tier):
